@@ -35,6 +35,7 @@ type c27Run struct {
 	mu       sync.Mutex
 	subs     []*opcua.Subscription
 	publish  int // PublishRequests seen on the wire
+	lastHint uint32 // TimeoutHint of the last PublishRequest
 	inflight map[string]time.Duration
 }
 
@@ -87,10 +88,16 @@ func (r *c27Run) Main(s *sim.Sim) {
 	defer e.stop()
 	r.inflight = map[string]time.Duration{}
 	s.Net.OnConn = func(c *sim.Conn) {
+		wireLog(s, c)
 		c.C2S.Observers = append(c.C2S.Observers, func(fr []byte) {
 			if id, ok := refcodec.ServiceTypeID(fr); ok && id == 826 { // PublishRequest
 				r.mu.Lock()
 				r.publish++
+				if svc, ok := decodeNone(fr); ok {
+					if pq, ok := svc.(*ua.PublishRequest); ok {
+						r.lastHint = pq.RequestHeader.TimeoutHint
+					}
+				}
 				r.mu.Unlock()
 			}
 		})
@@ -209,10 +216,15 @@ func (r *c27Run) Main(s *sim.Sim) {
 		r.mu.Unlock()
 		if after == before && len(cl.SubscriptionIDs()) > 0 && cl.State() == opcua.Connected {
 			hint := "running"
+			r.mu.Lock()
+			noTimeout := r.lastHint == 0xffffffff
+			r.mu.Unlock()
 			if publishLoopPaused() {
 				hint = "paused"
+			} else if noTimeout {
+				hint = "waiting-for-a-request-sent-without-timeout"
 			}
-			s.Fail("C27", "publish-loop-stalled", "no-publish-requests:"+hint, "%d subscriptions are registered and the client is Connected but no PublishRequest was sent for %v (publish loop %s)\n%s", live, window, hint, clientStacks())
+			s.Fail("C27", "publish-loop-stalled", "no-publish-requests:"+hint, "%d subscriptions are registered and the client is Connected but no PublishRequest was sent for %v (publish loop %s)\n%s\n---- all goroutines ----\n%s", live, window, hint, clientStacks(), serverStacks())
 			return
 		}
 		s.Probe("publish-progress")
@@ -231,7 +243,10 @@ func stuckCallSig() string {
 	seen := map[string]bool{}
 	var out []string
 	for _, g := range strings.Split(sim.GoroutineDump(), "\n\n") {
-		if !strings.Contains(g, "verif/scen.(*c27Run).Main") {
+		if !strings.Contains(g, "verif/scen.(*c27Run).Main") && !clientFrameRe.MatchString(g) {
+			continue
+		}
+		if strings.Contains(g, "scheduleRenewal") || strings.Contains(g, "scheduleExpiration") || strings.Contains(g, ".dispatcher(") {
 			continue
 		}
 		hdr, _, _ := strings.Cut(g, "\n")
@@ -252,12 +267,19 @@ func stuckCallSig() string {
 		var k string
 		switch {
 		case strings.Contains(g, ".(*Client).pauseSubscriptions"):
-			k = "send-on-full-pausech-while-holding-subMux"
-			if !strings.Contains(g, "forgetSubscription_NeedsSubMuxLock") {
-				k = "send-on-full-pausech"
+			k = "send-on-full-pausech"
+			switch {
+			case strings.Contains(g, "forgetSubscription_NeedsSubMuxLock"):
+				k += "-while-holding-subMux"
+			case strings.Contains(g, ".(*Client).monitorSubscriptions"):
+				k += "-by-the-publish-loop-itself"
 			}
 		case wait == "chan-send" && strings.Contains(g, ".(*Client).Subscribe("):
 			k = "send-on-full-resumech"
+		case strings.Contains(g, ".(*Client).resumeSubscriptions"):
+			k = "send-on-full-resumech-by-monitor"
+		case strings.Contains(g, ".(*Client).monitorSubscriptions") || (strings.Contains(g, ".(*Client).monitor(") && wait == "select" && !strings.Contains(g, "Subscription")):
+			continue // idle background loops
 		default:
 			fns := leakFnRe.FindAllString(g, 3)
 			if len(fns) == 0 {
@@ -275,8 +297,8 @@ func stuckCallSig() string {
 		}
 	}
 	sort.Strings(out)
-	if len(out) > 2 {
-		out = out[:2]
+	if len(out) > 3 {
+		out = out[:3]
 	}
 	return strings.Join(out, ";")
 }
